@@ -341,10 +341,6 @@ def l163(nroutes):
         pat = TABLE_PATTERNS[choose(len(TABLE_PATTERNS), 'route%d' % i)]
         meth = METHODS[choose(2, 'method%d' % i)]          # GET / POST
         routes.append(ws.Route('r%d' % i, meth, pat, (lambda req, i=i: ('handled', i))))
-    router.registerRoutes(routes)
-    # swap the compiled patterns for solver-backed ones
-    for meth in router.route_table:
-        router.route_table[meth] = [(SymPattern(rp), tok, ep) for rp, tok, ep in router.route_table[meth]]
     # the request path is a text proxy (so that any table lookup or comparison the router performs on it is
     # decided symbolically too), over the ordinary alphabet
     path = text.atom('path', nosep='', nonempty=False)
@@ -353,30 +349,49 @@ def l163(nroutes):
     e.add(z3.InRe(s, z3.Star(rx.alphabet())))
     mi = choose(3, 'req_method')
     method = ['GET', 'POST', 'PATCH'][mi]
-    got = router.getRoute(method, path)
-    # reference: first registered route of that method whose documented language contains the path
-    cands = [r for r in routes if r.method == method]
-    if got is None:
-        for r in cands:
-            check(SxBool(z3.Not(z3.InRe(s, z_must(parts_of[r.pattern])))), 'no route returned => no route of that method matches')
+
+    def register(batch):
+        router.registerRoutes(batch)
+        # swap the compiled patterns for solver-backed ones
+        for meth in router.route_table:
+            router.route_table[meth] = [(rp if isinstance(rp, SymPattern) else SymPattern(rp), tok, ep)
+                                        for rp, tok, ep in router.route_table[meth]]
+
+    def lookup(known):
+        """getRoute + dispatch against the reference: first registered route of that method whose documented language
+        contains the path"""
+        got = router.getRoute(method, path)
+        cands = [r for r in known if r.method == method]
+        if got is None:
+            for r in cands:
+                check(SxBool(z3.Not(z3.InRe(s, z_must(parts_of[r.pattern])))), 'no route returned => no route of that method matches')
+        else:
+            ep, matches = got
+            check(ep.method == method, 'chosen route has the request method')
+            idx = cands.index(ep)
+            for r in cands[:idx]:
+                check(SxBool(z3.Not(z3.InRe(s, z_must(parts_of[r.pattern])))), 'an earlier registered matching route would have been chosen')
+        # dispatch: 404 exactly when nothing matches
+        req = Req(method, path)
+        ws_request_response = ws.request_response
+        try:
+            ws.request_response = lambda endpt, request: ('ROUTED', endpt)
+            resp = router.dispatch(req)
+        finally:
+            ws.request_response = ws_request_response
+        if got is None:
+            check(isinstance(resp, ws.JsonResponse) and resp.status_code == 404, 'a path that matches nothing yields 404')
+        else:
+            check(isinstance(resp, tuple) and resp[1] is got[0], 'dispatch routes to the route getRoute chose')
+    # routes may be registered in two batches with requests in between: the answer always reflects the table as it is
+    first = choose(nroutes + 1, 'registered_first')
+    if first < nroutes:
+        register(routes[:first])
+        lookup(routes[:first])
+        register(routes[first:])
     else:
-        ep, matches = got
-        check(ep.method == method, 'chosen route has the request method')
-        idx = cands.index(ep)
-        for r in cands[:idx]:
-            check(SxBool(z3.Not(z3.InRe(s, z_must(parts_of[r.pattern])))), 'an earlier registered matching route would have been chosen')
-    # dispatch: 404 exactly when nothing matches
-    req = Req(method, path)
-    ws_request_response = ws.request_response
-    try:
-        ws.request_response = lambda endpt, request: ('ROUTED', endpt)
-        resp = router.dispatch(req)
-    finally:
-        ws.request_response = ws_request_response
-    if got is None:
-        check(isinstance(resp, ws.JsonResponse) and resp.status_code == 404, 'a path that matches nothing yields 404')
-    else:
-        check(isinstance(resp, tuple) and resp[1] is got[0], 'dispatch routes to the route getRoute chose')
+        register(routes)
+    lookup(routes)
 
 
 def replay_l163(cfg, m):
@@ -391,9 +406,23 @@ def replay_l163(cfg, m):
     for i in range(cfg['nroutes']):
         routes.append(c.Route('r%d' % i, METHODS[ch('method%d' % i)], TABLE_PATTERNS[ch('route%d' % i)], None))
     r = c.Router()
-    r.registerRoutes(routes)
     method = ['GET', 'POST', 'PATCH'][ch('req_method')]
     path = m.get('path', '')
+    first = ch('registered_first')
+    if first < cfg['nroutes']:
+        r.registerRoutes(routes[:first])
+        r.getRoute(method, path)                      # a request before the second batch of routes exists
+        try:
+            saved0 = c.request_response
+            c.request_response = lambda endpt, request: ('ROUTED', endpt)
+            r.dispatch(Req(method, path))
+        except Exception:
+            pass
+        finally:
+            c.request_response = saved0
+        r.registerRoutes(routes[first:])
+    else:
+        r.registerRoutes(routes)
     got = r.getRoute(method, path)
     parts_of = {p: parse_pattern(p) for p in TABLE_PATTERNS}
     cands = [x for x in routes if x.method == method]
